@@ -519,7 +519,7 @@ pub fn meta(tier: Tier) -> Meta {
 pub fn run(ctx: &Ctx) -> Report {
     let mut report = Report::new();
     // silence panics from catch_unwind probes
-    std::panic::set_hook(Box::new(|_| {}));
+    if std::env::var("VERIF_PANICS").is_err() { std::panic::set_hook(Box::new(|_| {})); }
     epoch_grid(&mut report);
     rewards(&mut report);
     fractions(&mut report);
